@@ -22,13 +22,34 @@ pub fn probe_chars(atoms: &Atoms, t: RegLan) -> Vec<u32> {
     v.into_iter().collect()
 }
 
+/// The closed interval denoted by a CharSet, recovered through `contains`, `size` and `pick` only
+/// (the fields are private). `pick` is documented to return *some* member, not the first one, so the
+/// start is located by a binary search on `contains` below the picked member.
+pub fn bounds_of(r: &aws_smt_strings::character_sets::CharSet) -> (u32, u32) {
+    let p = r.pick().min(MAX);
+    let n = r.size().max(1);
+    let mut lo_bound = p.saturating_sub(n - 1); // the start cannot be lower than this
+    let mut hi_bound = p; // contains(p) holds
+    while lo_bound < hi_bound {
+        let mid = lo_bound + (hi_bound - lo_bound) / 2;
+        if r.contains(mid) {
+            hi_bound = mid;
+        } else {
+            lo_bound = mid + 1;
+        }
+    }
+    let lo = hi_bound;
+    (lo, lo.saturating_add(n - 1).min(MAX))
+}
+
 /// end points of a CharSet and the characters just outside. CharSet only exposes `pick` and
 /// `size`; any character <= MAX is a legitimate probe, so the points are clamped rather than
 /// trusted (a crate change to `pick` must not break the harness).
 pub fn range_probe_points(r: &aws_smt_strings::character_sets::CharSet) -> Vec<u32> {
     let p = r.pick().min(MAX);
     let n = r.size().max(1);
-    let mut v = vec![p, p.saturating_add(n - 1).min(MAX), p.saturating_sub(n - 1)];
+    let (lo, hi) = bounds_of(r);
+    let mut v = vec![p, lo, hi, p.saturating_add(n - 1).min(MAX), p.saturating_sub(n - 1)];
     for x in v.clone() {
         if x > 0 {
             v.push(x - 1);
